@@ -73,6 +73,33 @@ def unjd(d):
     return {k: F(v) for k, v in d.items()}
 
 
+def registry_ci():
+    import pint
+    return pint.UnitRegistry(non_int_type=F, cache_folder=None, case_sensitive=False)
+
+
+def attr_spellings(u, sysname, rng, canon, n_extra):
+    """names to ask a system for: every stem that has a `<system>_<stem>` variant, in every spelling of the
+    plain unit (name, symbol, aliases), each also as a plural; plurals and prefixed forms of other names —
+    i.e. strings the registry resolves although they are no literal key of its unit table"""
+    keys = list(u._units)
+    stems = sorted({k[len(sysname) + 1:] for k in keys if k.startswith(sysname + "_") and len(k) > len(sysname) + 1})
+    out = []
+    for st in stems:
+        out += [st, st + "s"]
+        try:
+            plain = u.get_name(st)
+        except Exception:      # noqa: BLE001
+            continue
+        for k in keys:
+            if u._units[k].name == plain and k.isidentifier():
+                out += [k, k + "s"]
+    extra = rng.sample(canon, min(n_extra, len(canon)))
+    out += [x + "s" for x in extra] + ["kilo" + x for x in extra[:5]] + ["milli" + x + "s" for x in extra[:3]]
+    out += ["kilo" + st for st in stems[:4]] + ["milli" + st + "s" for st in stems[:3]]
+    return list(dict.fromkeys(out))
+
+
 class Hang(Exception):
     pass
 
@@ -879,6 +906,7 @@ def gen_registry(rng, idx):
              ("knot", "second"), ("coulomb", "ampere"), ("coulomb", "second"), ("newton", "second"), ("gee", "second")]
     snames = [f"S{idx}_{i}" for i in range(rng.randint(1, 3))]
     systems = {}
+    variant_lines = []
     for s in snames:
         using = rng.sample(gnames + [dg], rng.randint(0, 2))
         using = list(dict.fromkeys(using))
@@ -896,10 +924,16 @@ def gen_registry(rng, idx):
             taken.add(old)
             rules.append(form)
         systems[s] = (using, rules)
+        # the system's own variant of some units (`<system>_<unit>`), as imperial_pint / US_ton in pint's file
+        for base in rng.sample(["foot", "pound", "liter", "knot", "hour"], rng.randint(0, 2)):
+            vname = f"{s}_{base}"
+            variant_lines.append(f"{vname} = {rng.choice(SCALES)} * {base}")
+            units.append(vname)
         lines.append(f"@system {s}" + (" using " + ", ".join(using) if using else ""))
         lines += ["    " + r for r in rules]
         lines.append("@end")
     dflt = rng.choice(snames)
+    lines += variant_lines
     text = "@defaults\n    group = " + dg + "\n    system = " + dflt + "\n@end\n" + "\n".join(lines) + "\n"
     return text, dict(units=units, groups=gnames + [dg], systems=snames, multi=multi, single=single)
 
@@ -942,8 +976,15 @@ def random_ops(rng, w, info, nops, allow_selfloop):
         elif r < 0.75:
             gos = rng.choice([None, sname(), gname(), gname()])
             w.apply(["compat", jd(rnd_units(rng, units, 1) if rng.random() < 0.9 else {}), gos])
-        elif r < 0.9:
+        elif r < 0.86:
             w.apply(["base", jd(rnd_units(rng, units)), rng.random() < 0.85, rng.choice([None, None, sname()])])
+        elif r < 0.93:
+            # a name as the parser accepts it: plain, plural, prefixed, symbol / alias, junk
+            base = rng.choice(units + ["ft", "lb", "in_", "min_", "N", "zork"])
+            base = base.split("_", 2)[-1] if base.startswith("S") and rng.random() < 0.7 else base   # stem of a variant
+            item = rng.choice([base, base, base + "s", "kilo" + base, "milli" + base + "s"])
+            if item.isidentifier():
+                w.apply(["attr", sname(0.03), item])
         else:
             w.apply(["to_base", str(F(rng.randint(1, 40), rng.choice([1, 2, 3, 7]))), jd(rnd_units(rng, units))])
 
@@ -1137,6 +1178,7 @@ def run(ck):
         full = thorough or s in ("imperial", "US")
         items = (list(canon) if full else rng.sample(canon, 40)) + rng.sample(spell, 80 if thorough else 20) \
             + ["zork", "_private", "x__", "kilometer", "millipint", "dimensionless", "pint", "ton", "gallon", "hundredweight"]
+        items += attr_spellings(ureg, s, rng, canon, 60 if thorough else 15)
         w = World(ureg, fails, f"attr:{s}")
         w.canon, w.universe = w0.canon, w0.universe
         for i, it in enumerate(items):
@@ -1148,6 +1190,18 @@ def run(ck):
                 w = World(ureg, fails, f"attr:{s}")
                 w.canon, w.universe = w0.canon, w0.universe
         add(w, ("attr", s, "last"))
+    # a case-insensitive registry resolves other letter cases of the variant as well (oracles only: the
+    # model's name resolution is the case-sensitive one)
+    uci = registry_ci()
+    for s_ in ("imperial", "US", "cgs"):
+        w = World(uci, fails, f"attr-ci:{s_}")
+        w.setup_names()
+        for it in attr_spellings(uci, s_, rng, canon, 5):
+            for form in {it, it.upper(), it.capitalize(), it.swapcase()}:
+                if form.isidentifier():
+                    w.apply(["attr", s_, form])
+        ck.case(key=("attr-ci", s_), n=len(w.log))
+        ck.count("oracle-only:attr-case-insensitive", len(w.log))
     w = World(ureg, fails, "attr:nosuch")
     w.canon, w.universe = w0.canon, w0.universe
     w.apply(["attr", "nosuch", "meter"])
